@@ -46,7 +46,7 @@ func c04read(v *TStateView, vis *[c04MaxKeys]c04opt, nk int, where string) {
 func VerifC04History() {
 	ctx := context.Background()
 	nk := verifParam("keys", 2, 2)
-	maxOps := verifParam("maxOps", 3, 5)
+	maxOps := verifParam("maxOps", 3, 4)
 	base := map[string][]byte{}
 	var under [c04MaxKeys]c04opt
 	for i := 0; i < nk; i++ {
